@@ -24,7 +24,7 @@ Definition sc_out_lockers_guarded : list bytes := [hex "53657373696f6e2e436c6f73
 (* ---- session.go: who sets the closed bits, who calls closeSession, who touches the output encoder ---- *)
 Definition sc_sets_output_closed : list bytes := [hex "53657373696f6e2e636c6f736553657373696f6e" (* Session.closeSession *)].
 Definition sc_sets_input_closed : list bytes := [hex "53657373696f6e2e636c6f7365496e70757453747265616d" (* Session.closeInputStream *)].
-Definition sc_closesession_callers : list bytes := [hex "53657373696f6e2e436c6f7365" (* Session.Close *); hex "53657373696f6e2e5365727665" (* Session.Serve *); hex "53657373696f6e2e73656e644572726f72" (* Session.sendError *)].
+Definition sc_closesession_callers : list bytes := [hex "53657373696f6e2e436c6f7365" (* Session.Close *); hex "53657373696f6e2e73656e644572726f72" (* Session.sendError *)].
 Definition sc_encoder_users : list bytes := [hex "53657373696f6e2e456e636f6465" (* Session.Encode *); hex "53657373696f6e2e456e636f6465456c656d656e74" (* Session.EncodeElement *); hex "53657373696f6e2e73656e644572726f72" (* Session.sendError *); hex "6c6f636b5772697465436c6f7365722e456e636f6465546f6b656e" (* lockWriteCloser.EncodeToken *); hex "6c6f636b5772697465436c6f7365722e466c757368" (* lockWriteCloser.Flush *); hex "6e65676f746961746553657373696f6e" (* negotiateSession *); hex "73656e64" (* send *)].
 
 (* ---- session.go: closed-bit tests of the token writer and token reader ---- *)
@@ -33,10 +33,11 @@ Definition sc_tw_flush_tests_closed : bool := true.
 Definition sc_tr_token_tests_closed : bool := true.
 
 (* ---- session.go: Serve's deferred shutdown calls, in order ---- *)
-Definition sc_serve_defer_calls : list bytes := [hex "636c6f7365496e70757453747265616d" (* closeInputStream *); hex "636c6f736553657373696f6e" (* closeSession *)].
+Definition sc_serve_defer_calls : list bytes := [hex "636c6f7365496e70757453747265616d" (* closeInputStream *); hex "436c6f7365" (* Close *)].
 
 (* ---- session.go: SetCloseDeadline replaces the input context under a lock ---- *)
 Definition sc_setclosedeadline_locked : bool := true.
+Definition sc_serve_reads_context_every_turn : bool := true.
 Definition sc_setclosedeadline_fresh_context : bool := true.
 Definition sc_setclosedeadline_cancels_previous : bool := true.
 Definition sc_setclosedeadline_zero_is_no_deadline : bool := true.
